@@ -19,5 +19,7 @@ def build(E):
     spec.targets = [t for t in spec.targets if "client.protocol" not in t[0]]
     E._client_env = env
     client_session.add_targets(E, spec, "C03")
+    from contracts import cert_funcs
+    cert_funcs.add_targets(E, spec, "C03", which=("fingerprint",))
     spec.lemmas = []
     return spec
